@@ -40,6 +40,18 @@ CLAIMED = {
               "index tuples with exact expected values; each is cross-checked against torch on the dense tensor and replayed into the library "
               "with the debug setting on and off; diagonal() too."),
         design="5/C03"),
+    "C16": dict(
+        engine="E3-history-machines",
+        technique="TLA+ retry-loop state machine (ideal per-member minimal jitter vs implementation-shaped loop) model checked by TLC; terminal behaviours replayed, cholesky_ex attempts trace-validated",
+        text=("spec/LOPsdChol.tla: batch members are exact integer matrices (PD, singular, indefinite at three depths, hopeless, NaN; 2x2 and "
+              "3x3) so that success of Cholesky under integer jitter is decided exactly. TLC checks for every batch of up to 3 members x "
+              "max_tries x upper that the implementation-shaped loop (one cholesky_ex attempt per action, difference jitter, info mask) "
+              "refines the ideal semantics (RefinesOutcome, RefinesJitter, NoBadFactor, MonotoneJitter, WarnIffJitter) and that four "
+              "realistic slips (frozen mask, full jitter re-added, all members jittered, extra try) are rejected. Every terminal behaviour "
+              "is replayed into psd_safe_cholesky (float32/64; explicit args, settings, out=, DenseLinearOperator.cholesky) checking the "
+              "factor of exactly A + j_b I, triangularity/orientation, exception types, warnings, input immutability; the recorded "
+              "cholesky_ex attempts must satisfy the per-member trace conditions."),
+        design="5/C16", note="TLC 1.8; exactness of IEEE Cholesky pivots' signs on the integer members; harness/checks/c16.py"),
     "C17": dict(
         engine="E3-history-machines",
         technique="TLA+ state machine of settings contexts (ideal scoped semantics + implementation-shaped model), TLC refinement check, all histories replayed into linear_operator.settings",
